@@ -356,6 +356,89 @@ pub fn instructions(ctx: &mut Ctx) {
     let _ = build;
 }
 
+/// History independence of the generators: under the same scripted answers, a generator call returns
+/// the same value whether it is the first call on a pristine thread or follows any other call.
+pub fn history(ctx: &mut Ctx) {
+    #[derive(Clone, Debug)]
+    enum Call {
+        Bools(i32, f32),
+        Ints(i32),
+        Floats(i32),
+        Code(usize),
+    }
+    fn exec(c: &Call) -> String {
+        let (r, log) = scripted(&[], 100_000, || match c {
+            Call::Bools(n, s) => format!("{:?}", CodeGenerator::random_bool_vector(*n, *s).map(|v| v.values)),
+            Call::Ints(n) => format!("{:?}", CodeGenerator::random_int_vector(*n, -5, 50).map(|v| v.values)),
+            Call::Floats(n) => format!("{:?}", CodeGenerator::random_float_vector(*n, 0.0, 1.0).map(|v| v.values)),
+            Call::Code(n) => {
+                // new names come from the `names` crate's own generator (not scripted): disabled here
+                let mut st = pushr::push::state::PushState::new();
+                st.configuration.new_erc_name_probability = 0.0;
+                st.name_bindings.insert("X".to_string(), pushr::push::item::Item::int(1));
+                let ic = pushr::push::instructions::InstructionCache::new(vec!["NOOP".to_string()]);
+                format!("{}", CodeGenerator::random_code_with_size(&st, &ic, *n).to_string())
+            }
+        });
+        match r {
+            Ok(s) => format!("{} / {} draws", s, log.len()),
+            Err(p) => format!("PANIC {}", panic_class(&p)),
+        }
+    }
+    let mut calls: Vec<Call> = vec![];
+    let sizes: Vec<i32> = if ctx.tier_thorough { vec![0, 1, 2, 3, 5, 8, 13, 16, 17, 33, 64, 100, 257] } else { vec![0, 1, 3, 8, 17, 64, 257] };
+    for n in &sizes {
+        for s in [0.25f32, 1.0] {
+            calls.push(Call::Bools(*n, s));
+        }
+        calls.push(Call::Ints(*n));
+        calls.push(Call::Floats(*n));
+        if *n >= 1 {
+            calls.push(Call::Code(*n as usize));
+        }
+    }
+    // baseline: every call alone on a pristine thread
+    let base: Vec<String> = calls
+        .iter()
+        .map(|c| {
+            let c2 = c.clone();
+            std::thread::spawn(move || {
+                crate::core::install_panic_hook();
+                exec(&c2)
+            })
+            .join()
+            .unwrap_or_else(|_| "PANIC thread".into())
+        })
+        .collect();
+    for (qi, q) in calls.iter().enumerate() {
+        let mine = qi % ctx.nshards == ctx.shard;
+        for (pi, p) in calls.iter().enumerate() {
+            let id = ctx.next_id;
+            ctx.next_id += 1;
+            if !mine || ctx.only.map(|o| id > o).unwrap_or(false) {
+                continue;
+            }
+            let rec = ctx.only.map(|o| o == id).unwrap_or(true);
+            let first = exec(q);
+            let after = exec(p);
+            let mut problems = vec![];
+            if first != base[qi] {
+                problems.push(format!("{:?} gives {} here but {} alone on a pristine thread", q, crate::core::trunc(&first, 200), crate::core::trunc(&base[qi], 200)));
+            }
+            if after != base[pi] {
+                problems.push(format!("{:?} after {:?} gives {} but {} alone on a pristine thread", p, q, crate::core::trunc(&after, 200), crate::core::trunc(&base[pi], 200)));
+            }
+            let v = if problems.is_empty() { Verdict::Pass } else { Verdict::fail("generator", "depends-on-earlier-call", problems.join("; ")) };
+            if rec {
+                ctx.transitions += 1;
+                ctx.states += 1;
+                ctx.nontrivial_mark(&format!("{}|{}", pi, base[pi]));
+            }
+            ctx.record_if(rec, id, &format!("{}|{}", pi, crate::core::trunc(&base[pi], 60)), v, || format!("{:?} after {:?} (and after the earlier calls of this worker)", p, q));
+        }
+    }
+}
+
 pub fn run_family(ctx: &mut Ctx, f: &str) {
     if let Err(e) = crate::c12::grid_self_check() {
         let id = ctx.next_id;
@@ -367,6 +450,7 @@ pub fn run_family(ctx: &mut Ctx, f: &str) {
         "boolvec" => boolvec(ctx),
         "vectors" => vectors(ctx),
         "instr" => instructions(ctx),
+        "history" => history(ctx),
         f => panic!("unknown family {}", f),
     }
 }
